@@ -31,6 +31,9 @@ class Plan(object):
         self.cleanup_pos = []   # (cleanup id, number of hook calls seen so far)
         self.notes = []         # property specific observations made inside steps
         self.hook_faults = {int(k): exc for k, exc in program.get("hook_faults", [])}
+        # faults by hook name + element (raised at EVERY call of that hook for that element, e.g. in
+        # every auto-retry attempt): [[hook name, ident, kind]]
+        self.hook_faults_named = dict(((n, i), e) for n, i, e in program.get("hook_faults_named") or [])
         self.hook_cleanups = {}
         for c in program.get("cleanups", []):
             self.hook_cleanups.setdefault(int(c["at"]), []).append(c)
@@ -90,7 +93,7 @@ def make_hooks(plan):
                 cid = "h%d" % k
                 plan.registered_cleanups.append(cid)
                 context.add_cleanup(make_cleanup(plan, cid, c.get("raises")))
-            exc = plan.hook_faults.get(k)
+            exc = plan.hook_faults.get(k) or plan.hook_faults_named.get((name, ident))
             if exc == "skip":
                 # documented run-time exclusion: the before-hook skips its own element
                 if args and name in ("before_feature", "before_rule", "before_scenario"):
